@@ -48,19 +48,24 @@ def run2(ctx):
         ctx.account(mc)
         ctx.log("%s: %d generated / %d distinct; %d class witnesses" % (cfg, mc.generated, mc.distinct, len(mc.emitted)))
         behs += mc.emitted
-    d = 20 if q else 30
-    for w, off in ((0, 6), (5, 0)):   # negative times with OOO + compaction only in the exhaustive configs (see KF-C20-8)
+    # thorough: the quick tier's walk shape for six consecutive TLC seeds (deeper / more numerous random walks reach corners
+    # where Db.tla's restart = WAL replay no longer describes a snapshot restart: see DESIGN.md 9.2b)
+    d = 20
+    seeds = [ctx.seed] if q else [ctx.seed + i for i in range(6)]
+    for w, off, sd in [(w, off, sd) for sd in seeds for (w, off) in ((0, 6), (5, 0))]:   # negative times with OOO + compaction only in the exhaustive configs (see KF-C20-8)
         if not ctx.want("sim"):
             continue
-        sim = ctx.tlc("db", "Db", "SIM_c20.cfg", simulate=(25 if q else 1500), depth=6 * d, workers=8,
+        ctx.tlc_seed = sd
+        sim = ctx.tlc("db", "Db", "SIM_c20.cfg", simulate=25, depth=6 * d, workers=8,
                       constants={"MaxOps": d, "W": w, "TOff": off}, timeout=(300 if q else 2400))
         ctx.account(sim)
         behs += sim.emitted
-        ctx.log("SIM W=%d TOff=%d: %d walks" % (w, off, len(sim.emitted)))
+        ctx.log("SIM W=%d TOff=%d seed=%d: %d walks" % (w, off, sd, len(sim.emitted)))
+    ctx.tlc_seed = None
     if ctx.want("simkf"):
         # walks that may trigger the known findings of the deletion / restart family: their own mismatches are reported under
         # their ids, anything else (e.g. a *different* loss after the same trigger) is a violation
-        sim = ctx.tlc("db", "Db", "SIM_c01_kf.cfg", simulate=(15 if q else 800), depth=6 * d, workers=8,
+        sim = ctx.tlc("db", "Db", "SIM_c01_kf.cfg", simulate=15, depth=6 * d, workers=8,
                       constants={"MaxOps": d, "W": 5, "TOff": 0}, timeout=(300 if q else 2400))
         ctx.account(sim)
         behs += sim.emitted
